@@ -3,7 +3,7 @@
 // failed checks: assertion failed: f >= -max && f <= max @ /verif/kani/ntp_proto/algorithm/kalman/mod.rs:288
 // re-run natively against the real code:  /verif/check C02 --replay /verif/replays/C02-c02_p_steer_frequency_clamped.rs
 //meta {"property": "C02", "crate_dir": "ntp-proto", "harness": "algorithm::kalman::verif::c02_p_steer_frequency_clamped", "harness_file": "/verif/kani/ntp_proto/algorithm/kalman/mod.rs", "features": [], "transform": true, "c_ffi": false}
-// native replay: reproduced
+// native replay: not-run
 /// Test generated for harness `algorithm::kalman::verif::c02_p_steer_frequency_clamped` 
 ///
 /// Check for `assertion`: "assertion failed: f >= -max && f <= max"
@@ -20,14 +20,12 @@
 /// logic.
 
 #[test]
-fn kani_concrete_playback_c02_p_steer_frequency_clamped_11247385996416321192() {
+fn kani_concrete_playback_c02_p_steer_frequency_clamped_10136427516557616968() {
     let concrete_vals: Vec<Vec<u8>> = vec![
         // 18446744073709551615ul
         vec![255, 255, 255, 255, 255, 255, 255, 255],
-        // 1
-        vec![1],
-        // 9223372036854775807
-        vec![255, 255, 255, 255, 255, 255, 255, 127],
+        // 0
+        vec![0],
         // 1
         vec![1],
         // 9223372036854775807
@@ -50,16 +48,16 @@ fn kani_concrete_playback_c02_p_steer_frequency_clamped_11247385996416321192() {
         vec![1],
         // 9223372036854775807
         vec![255, 255, 255, 255, 255, 255, 255, 127],
-        // 5.456968e-12
-        vec![7, 0, 0, 8, 0, 0, 152, 61],
+        // -5.703701e+91
+        vec![0, 0, 0, 0, 0, 0, 252, 210],
         // -NaN
         vec![255, 255, 255, 255, 255, 255, 255, 255],
         // 1
         vec![1],
-        // 4.775122e+307
-        vec![34, 186, 255, 255, 255, 255, 208, 127],
-        // -4.775122e+307
-        vec![33, 186, 255, 255, 255, 255, 208, 255],
+        // 9.550245e+307
+        vec![0, 0, 0, 0, 0, 0, 225, 127],
+        // -8.988466e+307
+        vec![0, 0, 0, 4, 0, 0, 224, 255],
         // 255
         vec![255],
         // 255
@@ -81,6 +79,12 @@ fn kani_concrete_playback_c02_p_steer_frequency_clamped_11247385996416321192() {
 }
 
 /* native run output:
-panicked at /verif/kani/ntp_proto/algorithm/kalman/mod.rs:288:9:
-assertion failed: f >= -max && f <= max
+error: unexpected argument '--no-assertion-reach-checks' found
+
+  tip: to pass '--no-assertion-reach-checks' as a value, use '-- --no-assertion-reach-checks'
+
+Usage: cargo-kani playback --unstable <UNSTABLE_FEATURE> [-- [TEST_ARGS]...]
+
+For more information, try '--help'.
+
 */
